@@ -952,6 +952,94 @@ def replay_total(case):
 
 
 # =====================================================================================================
+# leafwise: exhaustive single-leaf enumeration (every leaf of the table x every pool value; every top-level unknown key)
+# =====================================================================================================
+
+# error lines that a documented-valid single leaf may legitimately trigger together with the DEFAULT siblings
+_CROSS_PREFIXES = (
+    "t4.weight_min/weight_max must satisfy", "graph.update.clamp_min/clamp_max must satisfy",
+    "graph.decay.floor must be <= graph.update.clamp_max", "graph.split.weak_edge_thresh should be <= graph.merge.min_avg_w",
+    "t3.policy tau_high should be >= tau_low", "scheduler.budgets.wall_ms must be >= scheduler.quantum_ms",
+    "t3.llm.fixtures.path must be a non-empty string when fixtures.enabled=true",
+    "t3.llm.fixtures.enabled must be true when t3.reflection.backend=llm",
+)
+
+
+def _nest(path, value):
+    d = value
+    for k in reversed(path):
+        d = {k: d}
+    return d
+
+
+def leafwise_space():
+    """Deterministic list of (kind, path, cls, value)."""
+    out = []
+    for path in LEAF_PATHS:
+        spec = LEAVES[path]
+        for v in _valid_values(spec, big=True):
+            out.append(("leaf", path, "valid", v))
+        for v in _outside_values(spec):
+            out.append(("leaf", path, "outside", v))
+        for v in WRONG:
+            out.append(("leaf", path, "wrongtype", v))
+        for v in SPECIAL:
+            out.append(("leaf", path, "special", v))
+    for sec in SECTION_PATHS:
+        if sec:
+            for v in SECTION_REPLACEMENTS:
+                out.append(("section", sec, "mangled", v))
+    tops = sorted(TREE.keys())
+    unknown = list(TOP_TYPOS) + [k[1:] for k in tops if len(k) > 1] + [k + "x" for k in tops] + RANDOM_KEYS
+    for k in unknown:
+        if k not in tops:
+            out.append(("topkey", (k,), "unknown", 1))
+    for k in NONSTR_KEYS:
+        out.append(("topkey", (k,), "unknown", 1))
+    return out
+
+
+def check_leaf(kind, path, cls, value, rec=None):
+    cfg = _nest(path, copy.deepcopy(value))
+    case = {"cfg": enc(cfg), "kind": kind, "cls": cls, "path": enc(list(path)), "value": enc(value)}
+    view = validator_view(cfg, case, rec)
+    if view is None:
+        return "excluded_known"
+    if view["ok"]:
+        check_ranges(view["norm"], case, rec)
+        if kind == "topkey":
+            raise Violation(f"unknown top-level key {path[0]!r} accepted (the v1 freeze rejects unknown top-level keys)", case, "unknown-top-level-accepted")
+        return "accepted"
+    if kind == "topkey" and str(path[0]) not in view["raw"]:
+        raise Violation(f"rejection of unknown top-level key {path[0]!r} does not name the key: {view['lines']!r}", case, "unknown-key-message")
+    if kind == "leaf" and cls == "valid":
+        bad = [ln for ln in view["lines"] if not ln.startswith(_CROSS_PREFIXES)]
+        if bad:
+            raise Violation(f"validator rejects a documented-valid value {value!r} for {'.'.join(path)}: {bad!r}", case, "rejects-documented-valid")
+        return "rejected_cross_field"
+    return "rejected"
+
+
+def sub_leafwise(rec, seed, shard, nshards):
+    space = leafwise_space()
+    for i, (kind, path, cls, value) in enumerate(space):
+        if i % nshards != shard:
+            continue
+        try:
+            outcome = check_leaf(kind, path, cls, value, rec)
+        except Violation as v:
+            rec.violation("leafwise: " + v.message, v.case, v.sig)
+            outcome = "violation"
+        rec.case(nontrivial=(cls != "valid"), dig=None, labels=[kind + "_" + cls, outcome],
+                 sample={"path": enc(list(path)), "value": enc(value), "outcome": outcome} if (cls != "valid" and i % 997 == shard) else None)
+    rec.note("space", len(space))
+
+
+def replay_leafwise(case):
+    check_leaf(case["kind"], tuple(dec(case["path"])), case["cls"], dec(case["value"]), None)
+
+
+# =====================================================================================================
 # hashseed: batches evaluated in child interpreters under different PYTHONHASHSEED values
 # =====================================================================================================
 
@@ -1724,6 +1812,7 @@ KNOWN_PROBES = {
 
 SUBCHECKS = [
     Sub("total", sub_total, quick={"n": 600}, thorough={"n": 6500}, shards_quick=4, shards_thorough=16, replay=replay_total),
+    Sub("leafwise", sub_leafwise, quick={}, thorough={}, shards_quick=4, shards_thorough=8, exhaustive=True, replay=replay_leafwise),
     Sub("hashseed", sub_hashseed, quick={"n": 200}, thorough={"n": 2500}, shards_quick=2, shards_thorough=8, replay=replay_hashseed),
     Sub("cli", sub_cli, quick={"n": 10}, thorough={"n": 95}, shards_quick=4, shards_thorough=16, replay=replay_cli),
     Sub("runnable", sub_runnable, quick={"n": 75}, thorough={"n": 650}, shards_quick=4, shards_thorough=16, replay=replay_runnable),
